@@ -165,7 +165,7 @@ func fieldName(t types.Type, i int) string {
 		t = p.Elem().Underlying()
 	}
 	if s, ok := t.(*types.Struct); ok && i < s.NumFields() {
-		return s.Field(i).Name()
+		return fieldDisplayName(s.Field(i))
 	}
 	return fmt.Sprintf("f%d", i)
 }
@@ -174,8 +174,21 @@ func funcName(f *ssa.Function) string {
 	if f == nil {
 		return "?"
 	}
+	return short(reviewedName(f))
+}
+
+// reviewedName: f.String(), with the name a renamed function (or the parent of a closure) was
+// reviewed under.
+func reviewedName(f *ssa.Function) string {
 	s := f.String()
-	return short(s)
+	root := f
+	for root.Parent() != nil {
+		root = root.Parent()
+	}
+	if old, ok := renamedFrom[root]; ok {
+		return old + strings.TrimPrefix(s, root.String())
+	}
+	return s
 }
 
 func commutative(op token.Token) bool {
@@ -508,7 +521,10 @@ func (c *Canon) calleeName(cc *ssa.CallCommon) string {
 	}
 	switch f := cc.Value.(type) {
 	case *ssa.Function:
-		return funcName(f)
+		if n := funcName(f); n != "fmt.Errorf" {
+			return n
+		}
+		return "errors.New" // message texts (and verbs) are elided: the two constructors are one
 	case *ssa.Builtin:
 		return f.Name()
 	case *ssa.MakeClosure:
@@ -530,10 +546,23 @@ func (c *Canon) call(cc *ssa.CallCommon, d int) string {
 	if cc.IsInvoke() {
 		args = append(args, c.termD(cc.Value, d+1))
 	}
-	for _, a := range cc.Args {
-		args = append(args, c.termD(a, d+1))
+	for i := range cc.Args {
+		args = append(args, c.argTerm(cc, i, d+1))
 	}
 	return name + "(" + strings.Join(args, ",") + ")"
+}
+
+// argTerm renders argument i of a call.
+func (c *Canon) argTerm(cc *ssa.CallCommon, i int, d int) string {
+	t := c.termD(cc.Args[i], d)
+	callee := cc.StaticCallee()
+	if strings.HasPrefix(t, "&{") && strings.HasSuffix(t, "}") && callee != nil && !cc.IsInvoke() && i < len(callee.Params) {
+		// the address of a by-value copy, handed to a callee that only reads through it
+		if inner := uncopy(t[1:]); inner != t[1:] && !strings.ContainsAny(inner, "(φ") && readOnlyParam(callee.Params[i], 0) {
+			t = "&" + inner
+		}
+	}
+	return t
 }
 
 func isCmp(op token.Token) bool {
@@ -702,6 +731,15 @@ func (c *Canon) cmp2(op token.Token, x, y ssa.Value, d int) string {
 			k = new(big.Int).Sub(k, big.NewInt(1))
 			op = token.LEQ
 		}
+		// a length or an unsigned value: x <= 0 is x == 0, x >= 1 is x != 0
+		if nonNegative(x) {
+			if op == token.LEQ && k.Sign() == 0 {
+				return xs + " == 0"
+			}
+			if op == token.GEQ && k.IsInt64() && k.Int64() == 1 {
+				return xs + " != 0"
+			}
+		}
 		ys := k.String()
 		if kc, ok := stripConv(y).(*ssa.Const); ok && (op == token.EQL || op == token.NEQ) {
 			ys = c.constStr(kc)
@@ -850,7 +888,7 @@ func (c *Canon) compositeLit(a *ssa.Alloc, d int) (string, bool) {
 	}
 	for i := 0; i < st.NumFields(); i++ {
 		if v, ok := vals[i]; ok {
-			parts = append(parts, st.Field(i).Name()+":"+v)
+			parts = append(parts, fieldDisplayName(st.Field(i))+":"+v)
 		}
 	}
 	name := short(pt.Elem().String())
@@ -1019,4 +1057,105 @@ func selectLitField(lv string) (string, bool) {
 			return lv, true
 		}
 	}
+}
+
+// nonNegative: len/cap results and values of unsigned integer type.
+func nonNegative(v ssa.Value) bool {
+	if call, ok := stripConv(v).(*ssa.Call); ok {
+		if bi, ok := call.Common().Value.(*ssa.Builtin); ok && (bi.Name() == "len" || bi.Name() == "cap") {
+			return true
+		}
+	}
+	if b, ok := v.Type().Underlying().(*types.Basic); ok && b.Info()&types.IsUnsigned != 0 {
+		return true
+	}
+	return false
+}
+
+// ---- pointer to a copy vs pointer to the original ----------------------------
+
+var readOnlyParamCache = map[*ssa.Parameter]int{} // 1 yes, 2 no, 3 in progress
+
+// readOnlyParam: the callee only reads through pointer parameter prm — it never stores through
+// it, never stores the pointer itself, never returns it, and hands it on only to callees that
+// do the same. For such a callee the address of a by-value copy and the address of the original
+// are the same argument.
+func readOnlyParam(prm *ssa.Parameter, depth int) bool {
+	if v := readOnlyParamCache[prm]; v != 0 {
+		return v == 1
+	}
+	if depth > 3 || prm.Parent() == nil || prm.Parent().Blocks == nil {
+		return false
+	}
+	readOnlyParamCache[prm] = 3
+	ok := addrOnlyRead(prm, depth)
+	if ok {
+		readOnlyParamCache[prm] = 1
+	} else {
+		readOnlyParamCache[prm] = 2
+	}
+	return ok
+}
+
+func addrOnlyRead(v ssa.Value, depth int) bool {
+	refs := v.Referrers()
+	if refs == nil {
+		return false
+	}
+	for _, ref := range *refs {
+		switch r := ref.(type) {
+		case *ssa.DebugRef:
+		case *ssa.UnOp:
+			if r.Op != token.MUL {
+				return false
+			}
+		case *ssa.FieldAddr:
+			if !addrOnlyRead(r, depth) {
+				return false
+			}
+		case *ssa.IndexAddr:
+			if !addrOnlyRead(r, depth) {
+				return false
+			}
+		case *ssa.Slice:
+			// x[:] of an array pointer: the slice aliases the array; allow only as a read-only argument
+			if !addrOnlyRead(r, depth) {
+				return false
+			}
+		case *ssa.BinOp:
+			if r.Op != token.EQL && r.Op != token.NEQ {
+				return false
+			}
+		case *ssa.Call:
+			cc := r.Common()
+			if cc.IsInvoke() {
+				return false
+			}
+			if bi, isB := cc.Value.(*ssa.Builtin); isB {
+				switch bi.Name() {
+				case "len", "cap":
+					continue
+				case "copy":
+					if len(cc.Args) == 2 && cc.Args[0] != v {
+						continue // source of a copy
+					}
+				}
+				return false
+			}
+			callee := cc.StaticCallee()
+			if callee == nil || callee.Blocks == nil || cc.Value == v {
+				return false
+			}
+			for i, a := range cc.Args {
+				if a == v {
+					if i >= len(callee.Params) || !readOnlyParam(callee.Params[i], depth+1) {
+						return false
+					}
+				}
+			}
+		default:
+			return false
+		}
+	}
+	return true
 }
